@@ -196,18 +196,14 @@ func (e *Encoder) encode(x starlark.Value) {
 		e.w.WriteByte(opEMPTY_SET)
 		e.memoize(x)
 
-		elems, first := x.Elems(), true
+		// The set stays on the stack below each batch's mark, so batches simply follow one another.
+		elems := x.Elems()
 		for len(elems) > 0 {
 			batch := elems
 			if len(batch) > 1000 {
 				batch = batch[:1000]
 			}
 			elems = elems[len(batch):]
-
-			if !first {
-				e.encode(x)
-			}
-			first = false
 
 			e.w.WriteByte(opMARK)
 			for _, elem := range batch {
@@ -246,18 +242,14 @@ func (e *Encoder) encodeComplex(x starlark.Value) {
 		e.w.WriteByte(opEMPTY_DICT)
 		e.memoize(x)
 
-		items, first := x.Items(), true
+		// The dict stays on the stack below each batch's mark, so batches simply follow one another.
+		items := x.Items()
 		for len(items) > 0 {
 			batch := items
 			if len(batch) > 1000 {
 				batch = batch[:1000]
 			}
 			items = items[len(batch):]
-
-			if !first {
-				e.encode(x)
-			}
-			first = false
 
 			e.w.WriteByte(opMARK)
 			for _, kvp := range batch {
@@ -283,17 +275,12 @@ func (e *Encoder) encodeComplex(x starlark.Value) {
 			e.encode(el)
 			e.w.WriteByte(opAPPEND)
 		default:
-			first := true
+			// The list stays on the stack below each batch's mark, so batches simply follow one another.
 			for i := 0; i < len; {
 				batch := len - i
 				if batch > 1000 {
 					batch = 1000
 				}
-
-				if !first {
-					e.encode(x)
-				}
-				first = false
 
 				e.w.WriteByte(opMARK)
 				for ; batch > 0; i, batch = i+1, batch-1 {
@@ -308,18 +295,14 @@ func (e *Encoder) encodeComplex(x starlark.Value) {
 		e.w.WriteByte(opEMPTY_DICT)
 		e.memoize(x)
 
-		attrs, first := x.AttrNames(), true
+		// The dict stays on the stack below each batch's mark, so batches simply follow one another.
+		attrs := x.AttrNames()
 		for len(attrs) > 0 {
 			batch := attrs
 			if len(batch) > 1000 {
 				batch = batch[:1000]
 			}
 			attrs = attrs[len(batch):]
-
-			if !first {
-				e.encode(x)
-			}
-			first = false
 
 			e.w.WriteByte(opMARK)
 			for _, attr := range batch {
